@@ -23,6 +23,10 @@ struct Ctx {
     scratch: PathBuf,
     files: u64,
     thorough: bool,
+    /// ONE pair of Searcher objects per configuration, reused by every case with that configuration and by
+    /// every run of a case (state carried from one search to the next is part of "for all histories")
+    searchers: std::collections::HashMap<String, Searchers>,
+    heap_searchers: std::collections::HashMap<String, grep_searcher::Searcher>,
 }
 
 enum AnyM {
@@ -93,8 +97,12 @@ fn read_fault_rule(e: &str, r: &str, interrupted: bool) -> Result<(), String> {
     if est != "ok" {
         return Err(format!("the uninterrupted run did not complete ({})", est));
     }
-    if interrupted && r == e {
-        return Ok(());
+    if interrupted {
+        // an interrupted read is retried: the search is the complete one
+        if r == e {
+            return Ok(());
+        }
+        return Err("an Interrupted read must be retried (the run differs from the uninterrupted one)".into());
     }
     if rst != "err" {
         return Err(format!("result is {} but the reader failed", rst));
@@ -288,7 +296,9 @@ fn evaluate<M: Matcher>(p: &Prep, m: &M, answers: &[String], ctx: &mut Ctx) {
     }
 
     // ---- every stop / error point of search_slice: impl vs model, and the rule on both
-    let mut ss = Searchers::new(cfg);
+    let key = cfg.token();
+    let mut ss = ctx.searchers.remove(&key).unwrap_or_else(|| Searchers::new(cfg));
+    ctx.rep.branch("searcher-object-reused-across-searches");
     for (i, &sc) in p.scripts.iter().enumerate() {
         let (k, is_err) = script_parts(sc);
         let r_model = &answers[2 + i][..];
@@ -373,7 +383,9 @@ fn evaluate<M: Matcher>(p: &Prep, m: &M, answers: &[String], ctx: &mut Ctx) {
         let scripts: Vec<Script> = match case.script {
             Some(Script::All) => vec![],
             Some(sc) => vec![sc],
-            None if ctx.thorough => (0..ns).flat_map(|k| [Script::Stop(k), Script::Err(k)]).collect(),
+            None if ctx.thorough || cfg.bin != Bin::None => {
+                (0..ns).flat_map(|k| [Script::Stop(k), Script::Err(k)]).collect()
+            }
             None => {
                 // a sample: two indices, both answers
                 let mut v = vec![];
@@ -407,46 +419,76 @@ fn evaluate<M: Matcher>(p: &Prep, m: &M, answers: &[String], ctx: &mut Ctx) {
     }
     std::fs::remove_file(&file).ok();
 
-    // ---- a reader that fails at read call j
+    // ---- a reader that fails at read call j (plain searcher; for the multi-line strategy also a heap-limited
+    //      searcher, whose reader path fills the buffer with its own read loop)
     if case.script.is_none() {
+        let mut heap = if path == "multi" {
+            let limit = input.len() + 64;
+            let hkey = format!("{}#{}", key, limit);
+            Some((hkey.clone(), ctx.heap_searchers.remove(&hkey).unwrap_or_else(|| cfg.searcher_heap(limit))))
+        } else {
+            None
+        };
         for chunk in [1usize, chunk2] {
-            let (e_r, reads) = run_with(&mut ss.plain, m, input, Script::All, &Strategy::Reader(chunk));
-            let js: Vec<usize> = if ctx.thorough || reads <= 3 {
-                (0..reads).collect()
-            } else {
-                (0..3).map(|_| rng.below(reads)).collect()
-            };
-            for j in js {
-                for interrupted in [false, true] {
-                    let st = Strategy::FaultReader { chunk, fail_at: j, interrupted };
-                    let r = run_with(&mut ss.plain, m, input, Script::All, &st).0;
-                    ctx.rep.eval();
-                    ctx.rep.branch(if interrupted { "read-fault:interrupted" } else { "read-fault:error" });
-                    if interrupted && r == e_r {
-                        ctx.rep.branch("read-fault:interrupted-retried");
-                    }
-                    if let Err(why) = read_fault_rule(&e_r, &r, interrupted) {
+            for use_heap in [false, true] {
+                if use_heap && heap.is_none() {
+                    continue;
+                }
+                let s: &mut grep_searcher::Searcher = if use_heap { &mut heap.as_mut().unwrap().1 } else { &mut ss.plain };
+                let (e_r, reads) = run_with(s, m, input, Script::All, &Strategy::Reader(chunk));
+                if use_heap {
+                    ctx.rep.branch("multi-line-reader:heap-limited");
+                    let e_plain = run_with(&mut ss.plain, m, input, Script::All, &Strategy::Reader(chunk)).0;
+                    if e_r != e_plain {
                         ctx.rep.violation(Violation {
                             kind: "impl_vs_spec".into(),
                             class: "".into(),
-                            tie: "search_reader with a reader failing at read j: delivered events are a prefix, no finish, error returned".into(),
+                            tie: "multi-line search_reader with and without a (sufficient) heap limit".into(),
                             case: line.to_string(),
-                            detail: format!(
-                                "{} reader chunk {} failing at read {} ({}): {}; run {} ; uninterrupted {}",
-                                what,
-                                chunk,
-                                j,
-                                if interrupted { "Interrupted" } else { "Other" },
-                                why,
-                                r,
-                                e_r
-                            ),
+                            detail: format!("{} heap-limited {} unlimited {}", what, e_r, e_plain),
                         });
+                    }
+                }
+                let s: &mut grep_searcher::Searcher = if use_heap { &mut heap.as_mut().unwrap().1 } else { &mut ss.plain };
+                let js: Vec<usize> = if ctx.thorough || reads <= 4 || path == "multi" {
+                    (0..reads.min(24)).collect()
+                } else {
+                    (0..3).map(|_| rng.below(reads)).collect()
+                };
+                for j in js {
+                    for interrupted in [false, true] {
+                        let st = Strategy::FaultReader { chunk, fail_at: j, interrupted };
+                        let r = run_with(s, m, input, Script::All, &st).0;
+                        ctx.rep.eval();
+                        ctx.rep.branch(if interrupted { "read-fault:interrupted" } else { "read-fault:error" });
+                        if let Err(why) = read_fault_rule(&e_r, &r, interrupted) {
+                            ctx.rep.violation(Violation {
+                                kind: "impl_vs_spec".into(),
+                                class: "".into(),
+                                tie: "search_reader with a reader failing at read j: a hard error leaves a prefix without finish and is returned; an Interrupted read is retried".into(),
+                                case: line.to_string(),
+                                detail: format!(
+                                    "{} reader chunk {}{} failing at read {} ({}): {}; run {} ; uninterrupted {}",
+                                    what,
+                                    chunk,
+                                    if use_heap { " (heap-limited searcher)" } else { "" },
+                                    j,
+                                    if interrupted { "Interrupted" } else { "Other" },
+                                    why,
+                                    r,
+                                    e_r
+                                ),
+                            });
+                        }
                     }
                 }
             }
         }
+        if let Some((k, s)) = heap {
+            ctx.heap_searchers.insert(k, s);
+        }
     }
+    ctx.searchers.insert(key, ss);
 }
 
 // ---------------------------------------------------------------- generated streams
@@ -468,6 +510,22 @@ fn lit_case(rng: &mut Rng) -> String {
     let needle: &[u8] = if rng.chance(1, 4) { b"xy" } else { b"x" };
     let (pn, pd) = *rng.pick(&[(1usize, 4usize), (1, 3), (1, 2), (3, 4)]);
     let input = gen_lit_input(rng, cfg.lt, needle, 6, pn, pd);
+    let m = gen_lit_matcher(rng, &cfg, needle);
+    Case { cfg, m, input, script: None }.line()
+}
+
+/// binary detection on (quit / convert on NUL): the `binary_data` notice is one more stoppable callback
+fn bin_case(rng: &mut Rng) -> String {
+    let mut cfg = small_cfg(rng);
+    if cfg.lt == Lt::Nul {
+        cfg.lt = Lt::Lf;
+    }
+    cfg.bin = if rng.chance(1, 2) { Bin::Quit(0) } else { Bin::Convert(0) };
+    let needle: &[u8] = b"x";
+    let mut input = gen_lit_input(rng, cfg.lt, needle, 6, 1, 2);
+    // at least one NUL, at a random place (possibly inside or after a matching line)
+    let at = rng.range(0, input.len());
+    input.insert(at, 0);
     let m = gen_lit_matcher(rng, &cfg, needle);
     Case { cfg, m, input, script: None }.line()
 }
@@ -653,7 +711,15 @@ fn main() {
          is not compared by the rule (only its presence). Non-trivial = the uninterrupted run has >= 4 events including a \
          context line or a break. Distinct by case text.",
     );
-    let mut ctx = Ctx { drv, rep, scratch: args.scratch.clone(), files: 0, thorough: args.thorough };
+    let mut ctx = Ctx {
+        drv,
+        rep,
+        scratch: args.scratch.clone(),
+        files: 0,
+        thorough: args.thorough,
+        searchers: Default::default(),
+        heap_searchers: Default::default(),
+    };
     for c in corpus_cases(&args) {
         run_case(&c, &mut ctx);
     }
@@ -668,6 +734,7 @@ fn main() {
                 2 | 7 => ml_lit_case(&mut rng),
                 3 | 8 => ml_regex_case(&mut rng),
                 4 => break_case(&mut rng),
+                5 => bin_case(&mut rng),
                 _ => lit_case(&mut rng),
             };
             if i < 10 {
